@@ -464,6 +464,25 @@ func checkC07(c *Ctx) {
 		}
 		add("image2", fmt.Sprintf(`image.new("a", 4, 4); image.move_to("a", %s); image.line_to("a", %s); image.quad_to("a", %s, %s); image.cube_to("a", %s, %s, %s); image.close_path("a"); image.draw("a", [1, 2, 3])`, xy, xy, xy, xy, xy, xy, xy))
 	}
+	// 2g'. histories on one image: every shape (square, wide, tall, a single row / column) drawn on repeatedly with every draw
+	//      function, the path touching every corner: what a draw leaves behind (the rasterizer) is what the next one starts from
+	for _, w := range []int{1, 2, 4, 9} {
+		for _, h := range []int{1, 2, 4, 9} {
+			for _, fn := range []string{"image.draw", "image.draw_hsl", "image.draw_ycbcr"} {
+				path := fmt.Sprintf(`image.move_to("a", 0, 0); image.line_to("a", %d, 0); image.line_to("a", %d, %d); image.line_to("a", 0, %d); image.close_path("a")`, w, w, h, h)
+				add("imagehist", fmt.Sprintf(`image.new("a", %d, %d); for r = 3 {%s; %s("a", [10, 20, 30])}; image.set("a", %d, %d, [1, 2, 3]); image.add("a", "a"); println(len(image.png("a")) > 0)`, w, h, path, fn, w-1, h-1))
+				add("imagehist", fmt.Sprintf(`image.new("a", %d, %d); %s; image.draw("a", [1, 2, 3]); image.new("a", %d, %d); %s; %s("a", [1, 2, 3]); %s; %s("a", [1, 2, 3, 4])`, h, w, path, w, h, path, fn, path, fn))
+			}
+		}
+	}
+	// 2g''. containers that shrank (del, slices, rest) while holding a value of every kind, then used where the whole container is
+	//      looked at: argument of a user function (cache key), map key, comparison, sort, json, set membership
+	for _, v := range []string{"(x => x)", "(0:12)", "{1: (x => x)}", "-0.0", "nil", "[(x => x)]", "quote(a + b)", "println", `{"a": 1, "b": 2, "c": 3, "d": 4, "e": 5}`, "NaN"} {
+		for _, mk := range []string{"m = {1: 1, 2: V}; del(m[2])", "m = {1: 1, 2: 2, 3: V}; del(m[3]); del(m[2])", "m = {1: V, 2: 1}; del(m[1])", "m = [1, V][0:1]", "m = rest([V, 1])",
+			"m = {1: 1, 2: V}; m = rest(m)", `m = {"k": {1: 1, 2: V}}; del(m.k[2])`, "m = {1: 1, 2: 2, 3: 3, 4: 4, 5: V}; del(m[5])", "m = [{1: 1, 2: V}]; del(m[0][2])", "m = [V, 1, 2]; m = m[1:]"} {
+			add("shrunkarg", strings.ReplaceAll(mk, "V", v)+"; f = func(q) {len(q)}; println(f(m), f(m)); g = func(a, b) {a == b}; println(g(m, m)); println({m: 1}); println(m == m, m < m, json(m)); println(sort([m, m])); println(f([m]), f({1: m}))")
+		}
+	}
 	// 2h. function literals whose body is only comments / comments and one statement / empty, in every literal form
 	for _, body := range []string{"", "// c\n", "// c\n// d\n", "/* c */", "/* c */ /* d */", "// c\n// d\n// e\n", "/* c */ 1", "1 /* c */", "// c\n1\n// d\n", "/* a */ /* b */ x", "// c\nx\n", "x // c\n"} {
 		for _, form := range []string{"f = func() {B}", "f = func(x) {B}", "f = x => {B}", "f = () => {B}", "f = (x, y) => {B}", "func f(x) {B}", "f = func(a, ..) {B}", "m = macro(x) {B}", "[x => {B}]", `{"k": func() {B}}`} {
